@@ -1,17 +1,39 @@
 """Spring API scan suite (C12; C07 API part)."""
 
 TRACE = ("SpringApi_Trace", "SpringApi_Trace.cfg")
+PROPS = ["C12_EntriesExact", "C12_OwnClass", "C07_NoCarryOver"]
 
 
 def plan(pid, tier, seed):
     quick = tier == "quick"
+    if quick:
+        mc = [
+            {"module": "SpringApi", "cfg": "SpringApi_MC_quick.cfg", "emit": True, "sample": 600, "properties": PROPS, "timeout": 600},
+            {"module": "SpringApi", "cfg": "SpringApi_Gen.cfg", "emit": True, "sample": 800, "properties": PROPS, "timeout": 600},
+        ]
+    else:
+        mc = [
+            {"module": "SpringApi", "cfg": "SpringApi_MC_thorough.cfg", "emit": True, "sample": 20000, "properties": PROPS, "timeout": 3000},
+            {"module": "SpringApi", "cfg": "SpringApi_Gen.cfg", "emit": True, "sample": 40000, "properties": PROPS, "timeout": 1800},
+        ]
     return {
         "harness": "springapi",
-        "mc": [],
+        "mc": mc,
         "gen": [],
         "rand": 300 if quick else 6000,
         "trace": TRACE,
     }
+
+
+def case_from_tlc(obj, h, g):
+    files = obj["files"]
+    n = len(files)
+    if n == 1:
+        runs = [[1], [1]]                      # the same analysis twice in one process
+    else:
+        # every order and every sub-/superset of the pair, plus a repetition, in ONE process
+        runs = [[1, 2], [2, 1], [2], [1], [1, 2]]
+    return {"case": "tlc-" + h, "files": files, "runs": runs, "layout": int(h[:6], 16) % 1000}
 
 
 def nontrivial(rec):
